@@ -2801,6 +2801,241 @@ class constructors_touch_no_data:
                     yield {"op": op, "dtype": dt, "vdtype": vdt}
 
 
+@contract("dask_array/_rechunk.py::Rechunk.chunks", spec="unknown-unchanged-axis", props=["C14", "C28"])
+class rechunk_unknown_unchanged_axis:
+    """rechunking the known axis of an array whose other axis has unknown sizes (every spelling of the spec, with and
+    without balance=True) keeps the unknown axis as it is, gives the known axis the requested chunks and computes the same
+    values"""
+    bounded_only = True
+    params = {"chunks": "const", "spec": "const", "balance": "const"}
+    scope = "10x4 data with a row mask, 3 layouts; specs {1: 3}, {1: -1}, {1: 2}, (None, 3); balance False / True"
+
+    def real():
+        return lambda: None
+
+    def call(fn, chunks, spec, balance):
+        import math
+        import numpy as np
+        import dask_array as da
+        n = np.arange(40).reshape(10, 4)
+        m = da.from_array(n, chunks=chunks)
+        u = m[m[:, 0] > 4]
+        r = u.rechunk(spec, balance=balance)
+        return u.chunks, r.chunks, np.asarray(r.compute()), n[n[:, 0] > 4]
+
+    def requires(chunks, spec, balance):
+        return True
+
+    def ensures(result, chunks, spec, balance):
+        import math
+        before, after, got, want = result
+        return {"unknown-axis-unchanged": len(after[0]) == len(before[0]) and all(math.isnan(c) for c in after[0]),
+                "known-axis-adds-up": sum(after[1]) == 4, "values-unchanged": _same(got, want)}
+
+    def domain(tier, rng):
+        for chunks in ((3, 1), (5, 2), (10, 4)):
+            # ('auto' is refused next to an unknown axis: it needs the block sizes -- a refusal, not part of this contract)
+            for spec in ({1: 3}, {1: -1}, {1: 2}, (None, 3)):
+                for bal in (False, True):
+                    yield {"chunks": chunks, "spec": spec, "balance": bal}
+
+
+@contract("dask_array/_rechunk.py::rechunk", spec="live-siblings", props=["C14"])
+class rechunk_live_siblings:
+    """several rechunks of ONE array expression that are alive at the same time and differ in a single argument (balance,
+    block_size_limit, threshold, method) each have the chunks their own arguments give -- expression nodes are
+    deduplicated by name, so every argument that influences the chunks must be part of the name"""
+    bounded_only = True
+    params = {"n": "const", "chunks": "const", "spec": "const", "order": "const"}
+    scope = "1-D lengths 220 / 23 / 100, 2 layouts, specs 100 / 10 / 7 / 'auto'; sibling pairs differing in balance or block_size_limit, both build orders, 2-D variant"
+
+    def real():
+        return lambda: None
+
+    def call(fn, n, chunks, spec, order):
+        import numpy as np
+        import dask_array as da
+        from dask_array._core_utils import normalize_chunks
+        a = np.arange(float(n))
+        x = da.from_array(a, chunks=chunks)
+        mk = {"plain": lambda: x.rechunk(spec), "balanced": lambda: x.rechunk(spec, balance=True),
+              "small-limit": lambda: x.rechunk("auto", block_size_limit=64), "large-limit": lambda: x.rechunk("auto", block_size_limit=640)}
+        alone = {}
+        for k, f in mk.items():
+            alone[k] = f().chunks        # built and dropped: nothing else alive
+        keep = []
+        together = {}
+        for k in order:
+            y = mk[k]()
+            keep.append(y)               # siblings stay alive
+            together[k] = y.chunks
+        vals = {k: np.asarray(y.compute()) for k, y in zip(order, keep)}
+        return alone, together, {k: bool(np.array_equal(v, a)) for k, v in vals.items()}
+
+    def requires(n, chunks, spec, order):
+        return True
+
+    def ensures(result, n, chunks, spec, order):
+        alone, together, ok = result
+        return {"chunks-do-not-depend-on-live-siblings": all(together[k] == alone[k] for k in together),
+                "values-unchanged": all(ok.values()),
+                "chunks-add-up": all(sum(c[0]) == n for c in together.values())}
+
+    def domain(tier, rng):
+        import itertools
+        for n, chunks, spec in ((220, 50, 100), (23, 5, 10), (100, 30, 7), (220, 220, 100)):
+            for order in itertools.permutations(("plain", "balanced", "small-limit", "large-limit"), 2):
+                yield {"n": n, "chunks": chunks, "spec": spec, "order": order}
+            yield {"n": n, "chunks": chunks, "spec": spec, "order": ("plain", "balanced", "small-limit", "large-limit")}
+            yield {"n": n, "chunks": chunks, "spec": spec, "order": ("large-limit", "small-limit", "balanced", "plain")}
+
+
+def _ix_pool(k, n):
+    half = [i % 2 == 0 for i in range(n)]
+    return [1, -1, slice(None), slice(1, 3), slice(None, None, -2), ("list", [0, 2]), ("nparr", [2, 0, 2]), ("npmask", half),
+            ("dmask", half), ("dint", [0, 2])]
+
+
+def _ix_advanced_split(key):
+    """NumPy moves the result axes of advanced indices (integers count once an array index is present) to the front when
+    they are separated by a slice or None"""
+    adv = [i for i, t in enumerate(key) if isinstance(t, int) or (isinstance(t, tuple) and t[0] in ("list", "nparr", "npmask", "dmask", "dint"))]
+    arrays = [i for i, t in enumerate(key) if isinstance(t, tuple) and t[0] in ("list", "nparr", "npmask", "dmask", "dint")]
+    return bool(arrays) and len(adv) > 1 and any(b - a > 1 for a, b in zip(adv, adv[1:]))
+
+
+def _ix_contract(spec, split):
+    @contract("dask_array/_collection.py::Array.__getitem__", spec=spec, props=["C12"])
+    class getitem_numpy_or_refusal:
+        """x[key] on a 3-D array for keys built from integers, slices, None, lists, integer / boolean NumPy arrays, boolean
+        dask masks and integer dask arrays: whatever is returned equals NumPy's result (shape and values); unsupported
+        combinations raise; keys made of integers, slices and None only, and keys with a single list / array entry, are
+        never refused"""
+        bounded_only = True
+        params = {"key": "const", "chunks": "const"}
+        scope = "4x5x6 array, 2 layouts; keys of 1-3 entries from a pool of 10 per axis, with None inserted (quick: sampled)"
+
+        def real():
+            return lambda: None
+
+        def call(fn, key, chunks):
+            import numpy as np
+            import dask_array as da
+            a = np.arange(120).reshape(4, 5, 6)
+            x = da.from_array(a, chunks=chunks)
+
+            def conv(t, lazy):
+                if not isinstance(t, tuple):
+                    return t
+                kind, v = t
+                if kind == "list":
+                    return list(v)
+                if kind == "nparr":
+                    return np.array(v)
+                if kind == "npmask":
+                    return np.array(v)
+                if kind == "dmask":
+                    return da.from_array(np.array(v), chunks=2) if lazy else np.array(v)
+                if kind == "dint":
+                    return da.from_array(np.array(v), chunks=1) if lazy else np.array(v)
+                raise ValueError(kind)
+
+            try:
+                want = ("value", a[tuple(conv(t, False) for t in key)])
+            except Exception as e:
+                want = ("raises", type(e).__name__)
+            import warnings
+            try:
+                with warnings.catch_warnings():
+                    warnings.simplefilter("ignore")
+                    got = ("value", np.asarray(x[tuple(conv(t, True) for t in key)].compute()))
+            except (IndexError, NotImplementedError, ValueError, TypeError) as e:
+                got = ("raises", type(e).__name__)
+            return got, want
+
+        def requires(key, chunks):
+            return True
+
+        def ensures(result, key, chunks):
+            got, want = result
+            basic = all(not isinstance(t, tuple) for t in key)
+            one_fancy = sum(isinstance(t, tuple) for t in key) == 1 and not any(isinstance(t, int) for t in key) and None not in key
+            r = {}
+            if got[0] == "value":
+                r["what-is-returned-is-numpys-result"] = want[0] == "value" and np_shape(got[1]) == np_shape(want[1]) and _same(got[1], want[1])
+            if want[0] == "value" and (basic or one_fancy):
+                r["basic-and-single-fancy-keys-are-not-refused"] = got[0] == "value"
+            return r
+
+        def domain(tier, rng):
+            import itertools
+            keys = []
+            shape = (4, 5, 6)
+            for n in (1, 2, 3):
+                for combo in itertools.product(*[_ix_pool(k, shape[k]) for k in range(n)]):
+                    keys.append(tuple(combo))
+            extra = []
+            for kcombo in keys:
+                if len(kcombo) <= 2:
+                    for pos in range(len(kcombo) + 1):
+                        extra.append(kcombo[:pos] + (None,) + kcombo[pos:])
+            keys = [k for k in keys + extra if _ix_advanced_split(k) == split]
+            if tier == "quick":
+                keys = rng.sample(keys, min(len(keys), 260 if not split else 60))
+            for k in keys:
+                for chunks in ((2, 2, 3), (4, 5, 6)):
+                    yield {"key": k, "chunks": chunks}
+
+    getitem_numpy_or_refusal.__name__ = "getitem_" + spec.replace("-", "_")
+    return getitem_numpy_or_refusal
+
+
+IX1 = _ix_contract("numpy-or-refusal-3d", False)
+IX2 = _ix_contract("advanced-indices-split-by-a-slice", True)
+
+
+@contract("dask_array/slicing/_bool_index.py::slice_with_bool_dask_array", spec="full-mask-nd", props=["C12"])
+class full_mask_nd:
+    """x[mask] with a boolean dask mask of x's rank returns NumPy's elements IN NUMPY'S (C) ORDER for every block layout of
+    a 2-D / 3-D / 4-D array -- also when the mask has exactly x's chunks, the last axis is one block and an inner axis is
+    split (the blocks of such a layout are not in C order)"""
+    bounded_only = True
+    params = {"shape": "const", "chunks": "const", "mask_chunks": "const"}
+    scope = "shapes (4,6), (2,4,6), (3,4,2,5); 5-7 layouts each; mask with the array's chunks and with other chunks"
+
+    def real():
+        return lambda: None
+
+    def call(fn, shape, chunks, mask_chunks):
+        import numpy as np
+        import dask_array as da
+        a = np.arange(int(np.prod(shape))).reshape(shape)
+        x = da.from_array(a, chunks=chunks)
+        m = (x % 3 == 0) if mask_chunks is None else da.from_array(a % 3 == 0, chunks=mask_chunks)
+        import warnings
+        with warnings.catch_warnings():
+            warnings.simplefilter("ignore")
+            got = np.asarray(x[m].compute())
+            got2 = np.asarray((x[m] + 1).compute())
+        return got, got2, a[a % 3 == 0]
+
+    def requires(shape, chunks, mask_chunks):
+        return True
+
+    def ensures(result, shape, chunks, mask_chunks):
+        got, got2, want = result
+        return {"elements-in-numpy-order": _same(got, want), "derived-sees-the-same-order": _same(got2, want + 1)}
+
+    def domain(tier, rng):
+        lay = {(4, 6): [(2, 3), (4, 3), (2, 6), (1, 6), (4, 6)],
+               (2, 4, 6): [(2, 2, 6), (2, (1, 3), 6), (1, 2, 6), (2, 4, 3), (1, 4, 6), (2, 2, 3), (2, 4, 6)],
+               (3, 4, 2, 5): [(3, 2, 1, 5), (3, 4, 2, 5), (1, 2, 2, 5), (3, 2, 2, 5), (2, 4, 1, 5)]}
+        for shape, ls in lay.items():
+            for ch in ls:
+                yield {"shape": shape, "chunks": ch, "mask_chunks": None}
+                yield {"shape": shape, "chunks": ch, "mask_chunks": ls[0]}
+
+
 @contract("dask_array/slicing/_utils.py::sanitize_index", spec="odd-index-objects", props=["C12"])
 class odd_index_objects:
     """index objects NumPy accepts return NumPy's result (narrow integer dtypes with negative entries, 0-d integer arrays);
@@ -2828,6 +3063,15 @@ class odd_index_objects:
             idx = np.array(3)
         elif kind == "0d-int8-negative":
             idx = np.array(-2, dtype=np.int8)
+        elif kind in ("bool-scalar-true", "bool-scalar-false", "np-bool-scalar"):
+            # NumPy: a mask over a new axis.  Either that, or a refusal -- never element 0 / 1
+            b = {"bool-scalar-true": True, "bool-scalar-false": False, "np-bool-scalar": np.True_}[kind]
+            try:
+                return np.asarray(fn(x, b).compute()), d[b]
+            except (NotImplementedError, IndexError, ValueError, TypeError):
+                return d[b], d[b]
+        elif kind == "vindex-narrow-dtype":
+            return np.asarray(x.vindex[np.array([-1, 3], dtype=np.int8)].compute()), d[np.array([-1, 3])]
         elif kind == "mask-right-length":
             m = (np.arange(n) % 2 == 0)
             return np.asarray(fn(x, da.from_array(m, chunks=chunks)).compute()), d[m]
@@ -2852,7 +3096,8 @@ class odd_index_objects:
         for n, chs in ((5, [1, 2, 5]), (200, [50, 200])):
             for ch in chs:
                 for kind in ("int8-negative", "int16-negative", "uint8", "0d-int", "0d-int8-negative", "mask-right-length",
-                             "mask-wrong-length-1", "mask-wrong-length-short"):
+                             "mask-wrong-length-1", "mask-wrong-length-short", "bool-scalar-true", "bool-scalar-false",
+                             "np-bool-scalar", "vindex-narrow-dtype"):
                     yield {"kind": kind, "n": n, "chunks": ch}
 
 
